@@ -153,7 +153,7 @@ def make_cfg(run_seed: int, profile_name: str, tier: str, *, population: str = "
     r = random.Random(f"cfg:{run_seed}")
     rows = {}
     big = tier == "thorough" and r.random() < 0.04
-    for t in ("A", "B", "D"):
+    for t in ("A", "B", "D", "A_1"):
         n = r.choice([0, 1, 2, 3, 4, 5, 6, 8, 10, 12])
         if big and t == "A":
             n = 130
